@@ -86,6 +86,36 @@ func searchKey(o *occ) (string, string) {
 
 // classExpect computes, from TLC's bindings, the positions of the occurrences of o's variable (want), the
 // as-built prediction (awant) with the deviations it relies on, and whether the case is UNSPECIFIED.
+// scLoose: positions that the as-built search may or may not list for the last classExpect call
+// (Dev_GlobalNamedLikeUnresolvedRequire: occurrences of global x in a file that requires an unprovided module x).
+var scLoose []string
+
+// looseMatch: got lists base except for some of the loose positions, and nothing else.
+func looseMatch(got, base, loose []string) bool {
+	if len(loose) == 0 {
+		return false
+	}
+	in := func(set []string, x string) bool {
+		for _, y := range set {
+			if y == x {
+				return true
+			}
+		}
+		return false
+	}
+	for _, g := range got {
+		if !in(base, g) {
+			return false
+		}
+	}
+	for _, b := range base {
+		if !in(got, b) && !in(loose, b) {
+			return false
+		}
+	}
+	return true
+}
+
 func classExpect(tc *scCase, r *scRender, o *occ) (want, awant []string, devs map[string]bool, unspecified bool) {
 	devs = map[string]bool{}
 	gfiles := map[string]map[int]bool{}
@@ -115,6 +145,32 @@ func classExpect(tc *scCase, r *scRender, o *occ) (want, awant []string, devs ma
 		return want, nil, devs, false // resolves to nothing
 	}
 	split := strings.HasPrefix(qk, "G") && len(gfiles[o.Name]) > 1
+	// as-built (Dev_GlobalNamedLikeUnresolvedRequire): in a file that requires a module x which no workspace file provides,
+	// the name x is taken for the module's own global (require("lfs"); lfs.mkdir(..)) and its uses are not searched
+	unres := map[int]map[string]bool{}
+	exists := map[string]bool{}
+	for k := range r.Files {
+		exists[scModName(k)] = true
+	}
+	fidx := 0
+	for _, it := range tc.Items {
+		if it.K == "file" {
+			fidx++
+		}
+		if it.K == "require" && !exists[scModName(it.RFile-1)] {
+			if unres[fidx] == nil {
+				unres[fidx] = map[string]bool{}
+			}
+			unres[fidx][scModName(it.RFile-1)] = true
+		}
+	}
+	scLoose = nil
+	for i := range r.Occ {
+		oo := &r.Occ[i]
+		if strings.HasPrefix(qk, "G") && classKey(oo) == qk && unres[oo.File][oo.Name] {
+			scLoose = append(scLoose, occPos(r, oo))
+		}
+	}
 	for i := range r.Occ {
 		oo := &r.Occ[i]
 		sk, dv := searchKey(oo)
@@ -186,6 +242,16 @@ func c06Judge(c *Ctx, j *Job, res *proto.Result) {
 			}
 			continue
 		}
+		if bad == "" && (looseMatch(got, want, scLoose) || looseMatch(got, awant, scLoose)) {
+			if surveyMode {
+				sv.add("DEV Dev_GlobalNamedLikeUnresolvedRequire", desc)
+			}
+			c.Rep.Deviation("Dev_GlobalNamedLikeUnresolvedRequire", desc, j.Raw)
+			for dv := range devs {
+				c.Rep.Deviation(dv, desc, j.Raw)
+			}
+			continue
+		}
 		if surveyMode {
 			missing, extra := diffSets(want, got)
 			sv.add(fmt.Sprintf("%s/%s slot=%s role=%s class=%s missing=%d extra=%d bad=%v devs=%v", it.K, it.Fl, o.Slot, o.Role, classKey(o)[:1], len(missing), len(extra), bad != "", devs), desc+fmt.Sprintf("\nas-built prediction {%s}", strings.Join(awant, " ")))
@@ -249,6 +315,9 @@ func checkC06(c *Ctx) {
 	}
 	p := c.NewPool(0)
 	scAvoid = `{"hide","selfw","gshallow"}`
+	// files are named like the variables (a.lua, b.lua) and may require each other and return a value
+	scModNames = []string{"a", "b"}
+	scKinds = `{"local","local2","use","assign","assign2","do","while","if","repeat","fornum","forin","lfunc","lefunc","gfunc","meth","cfunc","file","ret","require"}`
 	c.Rep.Assumptions = append(c.Rep.Assumptions, "generated domain leaves out the trigger constructs of Dev_EmptyLocalReboundHidesDecl and Dev_GlobalWriteInsideOwnFunction and of the nested-then-shallower global definition order (Scope.tla Avoid = {hide, selfw, gshallow}); those constructs are judged with exact predictions in C05")
 	scopeRuns(c, p, c06Build, func(j *Job, r *proto.Result) { c06Judge(c, j, r) })
 	c.poolStats(p)
